@@ -5,4 +5,7 @@ PROP = dict(
     assumptions=['A-UUID: uuid.uuid4() returns fresh non-zero 128-bit values (property of the standard library, not provable)',
                  'PY-1 int = mathematical integers; PY-2 declared sorts respected by callers'],
     trusted_base=['z3 5.1 / cvc5 1.0.3', 'pyvc symbolic executor (DESIGN.md §2)', 'CPython attribute lookup order (PY-6)'],
+    manifest=dict(text='Proof: obligations generated from the current source of IdGenerator.*, IntegerGenerator.readfunc and MetaClass.default_value are discharged by z3/cvc5 for all inputs; the property sentences (1,2,3,..., peek never advances, typed defaults, unknown type rejected) are lemmas over those contracts.',
+                  note='Assumes A-UUID (uuid4 freshness), the pyvc encoding of Python (DESIGN section 2.3), and that callers respect declared sorts.',
+                  technique='contract-based deductive verification (pyvc: ast->z3 VCs on the real source)'),
 )
